@@ -16,7 +16,7 @@
      nonl      n.lua                     no trailing newline
 
    Every scenario (one per initial state) is printed as an SCN line with, per entry, what a fault-free run must
-   leave behind (`expect`: "fmt" = formatted, "orig" = untouched) and whether the run must report failure; the
+   leave behind (`expect`: "fmt" = formatted, "orig" = untouched, "either") and whether the run may report failure; the
    driver materialises it (as an unprivileged user, so that the permission bits matter), records the run, and
    FsAtomic.tla composes the faults.  *)
 EXTENDS Naturals, Sequences, FiniteSets, TLC, Json
@@ -53,9 +53,11 @@ Flat(f(_), i) == IF i > Len(ClassSeq) THEN <<>>
 \* what the fault-free run leaves: everything it reaches and can replace is formatted
 InRoDir(e) == e.name = "ro/a.lua"
 Expect(e) ==
-  IF InRoDir(e) THEN "orig"
+  IF InRoDir(e) THEN "either"                  \* no temporary file can be created: untouched (and the run fails), or
+                                               \* rewritten by other means -- the property allows both
   ELSE IF argmode = "dir" \/ e.arg THEN "fmt"
-  ELSE IF e.kind = "hard" THEN "orig"          \* the named link is replaced by a new inode; this name keeps the old one
+  ELSE IF e.kind = "hard" THEN "either"        \* replace-by-rename leaves this name on the old inode (original); a tool
+                                               \* that keeps the inode rewrites it too -- the property allows both
   ELSE "fmt"                                   \* the file behind the named symlink
 Scenario ==
   LET es == Flat(Entries, 1) IN
@@ -65,7 +67,7 @@ Scenario ==
    rodirs |-> Flat(RoDirs, 1),
    argv |-> <<"--write">> \o (IF argmode = "dir" THEN <<".">>
                               ELSE LET a == SelectSeq(es, LAMBDA e : e.arg) IN [i \in DOMAIN a |-> a[i].name]),
-   fails |-> "rodir" \in cls]
+   mayfail |-> "rodir" \in cls]
 
 Init == /\ cls \in {S \in SUBSET Classes : Cardinality(S) \in Sizes}
         /\ argmode \in ArgModes
